@@ -78,9 +78,14 @@ def check(run, prog, tier):
     for p in paths:
         if p.outcome[0] == "raise" or not feasible(p):
             continue
-        news = [e for e in p.events if e.kind == "call" and e.result is not None and e.result[0] == "new" and e.result[1] == "header.SOMEIPHeader"]
         sends = calls_to(p, send.qual)
         builds = [e for e in p.events if e.kind == "call" and any(f.qual == build_q for f in e.targets)]
+
+        class _H:  # a notification message = the header object whose build() result is transmitted
+            def __init__(self, term):
+                self.result = term
+        news = [_H(b.recv) for b in builds if b.recv is not None and b.recv[0] == "new" and b.recv[1] == "header.SOMEIPHeader"]
+
         if not news:
             if sends and not p.truncated:
                 probs.setdefault("V1:nothing-to-send", "a datagram is sent although no event was requested")
@@ -112,6 +117,8 @@ def check(run, prog, tier):
                 sid = d.get("session_id")
                 if not (sid is not None and sid[0] == "item" and sid[2] == const(1) and sid[1][0] == "call" and sid[1][1][0] == "bound" and sid[1][1][2] == assign):
                     probs.setdefault("V1:session_id", f"session id = {show(sid)[:60] if sid else '?'}; expected the id handed out by assign_outgoing")
+                elif len({dict(h.result[2]).get("session_id") for h in news}) != len(news):
+                    probs.setdefault("V1:session_id", f"{len(news)} notification messages of one datagram share a session id: ids must count up per message")
                 elif sends and sid[1][2][:1] != (sends[0].arg(1, "remote"),):
                     probs.setdefault("V1:session_id", f"session id counted for {show(sid[1][2][0])[:40] if sid[1][2] else '?'} but the datagram goes to {show(sends[0].arg(1, 'remote'))[:40]}: not a per-destination counter")
                 if set(d) - set(want) - {"method_id", "session_id"}:
